@@ -729,7 +729,7 @@ fn suite_sym(w: &mut dyn Write, tier: &str, seed: u64, shard: usize, nshards: us
         let d = describe(b);
         let fl = sym_check(b, &d.flipped(), flip_sq, true, |x| x.flipped());
         let mi = if d.wr == 0 && d.br == 0 { sym_check(b, &d.mirrored(), mirror_sq, false, |x| x.mirrored()) } else { "na".to_string() };
-        writeln!(w, "M|id=m{}_{}|d={}|flip={}|mirror={}", shard, n, d.to_string(), fl, mi).unwrap();
+        writeln!(w, "M|id=m{}_{}|d={}|fd={}|md={}|flip={}|mirror={}", shard, n, d.to_string(), d.flipped().to_string(), d.mirrored().to_string(), fl, mi).unwrap();
     };
     let games = tier_n(tier, 120, 5000) / nshards + 1;
     for gi in 0..games {
